@@ -161,6 +161,6 @@ for _qual, _entry, _recv, _ctor in [
              via=Via(_entry, {"": _recv}, args={"loader": "LD"}), clause_props=CP,
              post={"raises-closed": "implies(raised, isinstance(exc, LoadError))",
                    "accept-iff": "returned == ok(loader, data)",
-                   "culprit": "implies(raised, exc is err(loader, data))"},
+                   "culprit": "implies(raised, is_err(exc, loader, data))"},
              requires=["forall(lambda k: True)"] and ["res_is_bytes(loader)"],
              cover=["returned", "raised"])
